@@ -202,6 +202,7 @@ func (s *v4sys) Ops() []string {
 			add("REQ-renew")
 			add("DECLINE-mine")
 		}
+		add("REQ-osrv") // REQUEST naming ANOTHER server in option 54, for my lease / my offer / my previous / a free address
 		add("REQ-gw")
 		add("REQ-net")
 		add("REQ-bcast")
@@ -305,6 +306,21 @@ func (s *v4sys) msg(n, kind, circuit string) string {
 	case "REQ-other":
 		m.Type, target = dhcpv4.MessageTypeRequest, s.otherAddr(n)
 		m.ServerID = s.d.ServerIP()
+	case "REQ-osrv":
+		// The client "selects" some other server. Whatever this server does with its own OFFER, it
+		// must not disturb a LEASE; and the client's un-requested offer here is void from now on.
+		m.Type, m.ServerID = dhcpv4.MessageTypeRequest, net.IPv4(10, 0, 1, 99)
+		switch {
+		case v.leased != "":
+			target = v.leased
+		case v.offer != "":
+			target = v.offer
+			delete(s.offers, n+"/"+target) // (the pool reservation may stay or go: pinned[] keeps the evidence)
+		case v.prev != "":
+			target = v.prev
+		default:
+			target = "10.0.1.4"
+		}
 	case "REQ-reboot":
 		m.Type, target = dhcpv4.MessageTypeRequest, v.prev
 	case "REQ-renew":
@@ -451,7 +467,8 @@ func (s *v4sys) msg(n, kind, circuit string) string {
 	switch m.Type {
 	case dhcpv4.MessageTypeRequest:
 		// O4: a client asking for the address of its own unexpired binding must get it
-		if own != nil && ip4s(own.IP) == target && gotAck != target {
+		// (a REQUEST that names another server may be answered with silence)
+		if own != nil && ip4s(own.IP) == target && gotAck != target && kind != "REQ-osrv" {
 			s.v("O4-renew-refused", site, "%s asked for its own unexpired lease %s and was answered %v", n, target, obs)
 		}
 	case dhcpv4.MessageTypeRelease:
